@@ -353,7 +353,7 @@ def run(ctx):
     ms = cm.body_or_fail(ctx, p, "C11-R6", "model::Models::<'a>::stream")
     if ms is not None:
         okk = False
-        for cb in p.nested(ms.path):
+        for cb in [ms] + list(p.nested(ms.path)):
             ceb = ExprBuilder(cb)
             for bb, t in cb.calls():
                 c = t["callee"]
